@@ -3,6 +3,7 @@ import FluentVerif.Proto.Equal
 import FluentVerif.Proto.EventTime
 import FluentVerif.Driver.Codec
 import FluentVerif.Driver.Tcp
+import FluentVerif.Driver.WsC
 /-! `fvdriver`: reads harness lines on stdin, evaluates the *same definitions the theorems are
 about* on each input, and prints, per line, whether the model agrees with what the real code did
 (`CORR`) and whether the property predicate holds of what the real code did (`PROP`). -/
@@ -83,6 +84,31 @@ def dispatch (op : String) (args obs : List String) : Outcome :=
   | "ETD" => opETD args obs
   | "HRESET" | "PRIME" | "PK" | "CP" | "CB" | "PB" | "MP" | "UP" | "MM" | "GCH" =>
     match opHIST op args obs with
+    | some d =>
+      { corr := match d.corr with | none => .ok | some w => .bad w,
+        prop := if d.fails.isEmpty then .ok else .bad (" ; ".intercalate d.fails),
+        branch := d.branch }
+    | none => { corr := .bad "bad-line" }
+  | "CONC" =>
+    (match args, obs with
+     | scen :: _, b :: rest =>
+       let tags := if scen == "lifecycle" || scen == "hsrace" then ["C14"] else if scen == "hsmix" then ["C08", "C14", "C04"] else ["C08"]
+       { corr := .ok,
+         prop := if b == "bad=0" then .ok else .bad (" ; ".intercalate (tags.map fun t => s!"{t} concurrent scenario {scen}: {" ".intercalate (b :: rest)}")),
+         branch := s!"conc.{scen}" }
+     | _, _ => { corr := .bad "bad-line" })
+  | "WSG" =>
+    (match args, obs with
+     | [scen], o :: rest =>
+       let all := " ".intercalate (o :: rest)
+       let bad := o == "send=panic" || o.startsWith "crash" || o == "hang" || o == "gate-not-reached" ||
+                  (scen == "listenrec" && !(all.startsWith "after=ok")) || all.contains "maxreaders=2"
+       { corr := .ok,
+         prop := if bad then .bad s!"C17 schedule {scen}: {all}" else .ok,
+         branch := s!"wsg.{scen}" }
+     | _, _ => { corr := .bad "bad-line" })
+  | "WSEQ" =>
+    match opWSEQ args obs with
     | some d =>
       { corr := match d.corr with | none => .ok | some w => .bad w,
         prop := if d.fails.isEmpty then .ok else .bad (" ; ".intercalate d.fails),
